@@ -67,5 +67,42 @@ func Run(o *hx.Out, g *hx.Rng, tier string) {
 			}
 		}
 	}
+	// re-seeding (every 2^24 reads): what follows one re-seed must not be what followed the previous one
+	// (a generator restarted from a fixed seed repeats its whole nonce sequence period after period)
+	for _, ge := range gens[1:] {
+		r := ge.mk()
+		o.Case("reseed-" + ge.name)
+		var sink [16]byte
+		// windows of 32 draws around the first and the second re-seed point (read index 2^24 and 2^25+1),
+		// compared at every alignment: robust against an off-by-one in where exactly the re-seed happens
+		i1, i2 := 1<<24, 1<<25+1
+		var w1, w2 [32][16]byte
+		for i := 0; i < i2+24; i++ {
+			switch {
+			case i >= i1-8 && i < i1+24:
+				io.ReadFull(r, w1[i-(i1-8)][:])
+			case i >= i2-8 && i < i2+24:
+				io.ReadFull(r, w2[i-(i2-8)][:])
+			default:
+				r.Read(sink[:])
+			}
+		}
+		same := false
+		var hit [16]byte
+		for a := 0; a+4 <= 32 && !same; a++ {
+			for b := 0; b+4 <= 32; b++ {
+				if w1[a] == w2[b] && w1[a+1] == w2[b+1] && w1[a+2] == w2[b+2] && w1[a+3] == w2[b+3] {
+					same, hit = true, w1[a]
+					break
+				}
+			}
+		}
+		o.CountN("draws:"+ge.name, i2+24)
+		o.Op("reseed "+ge.name, fmt.Sprintf("repeats=%v", same))
+		if same {
+			o.Violate(hx.Violation{Kind: "entropy-reseed-repeats", Detail: fmt.Sprintf("generator %s: four consecutive 16-byte draws after its second re-seed equal four consecutive draws after its first (%x...): the nonce sequence repeats with the re-seed period", ge.name, hit),
+				Replay: []string{fmt.Sprintf("kcp.%s: 2^25+25 reads of 16 bytes; the 32 draws around read 2^24 against the 32 around read 2^25+1", ge.name)}})
+		}
+	}
 	_ = g
 }
